@@ -23,6 +23,7 @@ SCALES = [1e-12, 1e-12, 1e-11, 1e-9, 1e-9, 1e-6, 1e-3, 1.0, 1.0]
 DIMS = [["x", "y", "z", "t"], ["a", "b", "c", "d"], ["r", "s", "u", "v"]]
 UNITS = [["m", "m", "m", "m"], ["nm", "s", "A", "K"]]
 TAG_ABS = "C14-abs-tolerance"
+TAG_GETTER = "C14-getter-dict-mutable"
 
 
 def S(x):
@@ -446,7 +447,36 @@ def generate(rng, tier):
         st = gen_state(rng, True, nsubs=rng.choice([0, 1, 2]), ints=(k % 3 == 0))
         cases.append(dict(kind="malformed", st=st, what=rng.choice(["list", "int-key", "tuple-value", "none-value",
                                                                     "str-value", "mesh-value", "bad-second"])))
+    # aliasing: a stored subregion must be the mesh's own object
+    for k in range(nm * 3):
+        st = gen_state(rng, True, nsubs=rng.choice([1, 2, 3]), ints=(k % 4 == 0))
+        cases.append(gen_alias(rng, st, ["same-twice", "dict-reuse", "caller-mutates"][k % 3]))
+    # directed, oracle-only: item assignment into the dictionary handed out by the getter
+    cases.append(dict(kind="getter-dict",
+                      st=dict(exact=True, p1=[S(0), S(0)], p2=[S(10), S(10)], n=[10, 10], tf=S(DEFAULT_TF),
+                              dims=["x", "y"], units=["m", "m"], subs=[], sub_idx={}, ints=False, ctype="list"),
+                      name="x", bad=[[S(F(1, 2)), S(0)], [S(F(7, 2)), S(10)]]))
     return cases
+
+
+def gen_alias(rng, st, mode):
+    """aliasing streams: the same Region under two names / a subregion dict reused for a second mesh /
+    the caller's Region mutated after the assignment; then an in-place or copying transformation"""
+    nd = len(st["n"])
+    cq = cellq(st)
+    if rng.random() < 0.5:
+        v = [S(rng.randint(-3, 3) * c_) for c_ in cq]
+        if all(F(x) == 0 for x in v):
+            v[0] = S(cq[0])
+        op = dict(op="translate", v=v)
+    else:
+        f = rng.choice([F(2), F(1, 2), F(3), F(-1), F(3, 2)])
+        ref = None if rng.random() < 0.5 else [S(F(rng.randint(-16, 16), 2)) for _ in range(nd)]
+        op = dict(op="scale", f=[S(f)] * nd, scalar=True, ref=ref)
+    a = rng.randrange(nd)
+    mut = [S(cq[b] / 2 if b == a else 0) for b in range(nd)]
+    return dict(kind="alias", st=st, mode=mode, carry=rng.random() < 0.75, inplace=rng.random() < 0.6,
+                mutate=rng.choice(["translate", "scale"]), mut_v=mut, **op)
 
 
 def gen_dst(rng, st, mode):
@@ -658,6 +688,23 @@ def run_case(c):
                    key=key_of("aligned", exact, nd, c["cls"], res, "deftol" if tol == ALIGN_TOL else "tol",
                               math.floor(math.log10(float(min(c1))))), size=size)
         return rec
+
+    if kind == "getter-dict":
+        mesh = build(st)
+        bad = df.Region(p1=fls(c["bad"][0]), p2=fls(c["bad"][1]))
+        st_set, _ = attempt(lambda: setattr(mesh, "subregions", {c["name"]: bad}))
+        st_item, _ = attempt(lambda: mesh.subregions.__setitem__(c["name"], bad))
+        mobs = snap_mesh(mesh)
+        if st_set == "ok":
+            rec["oracle"].append("bad-candidate-accepted")
+        rec["oracle"] += invariant_violations(mobs)
+        rec["tags"] = [TAG_GETTER]
+        rec.update(obs=dict(status=st_item, setter=st_set, subs=mobs["subs"]),
+                   key=key_of("getter-dict", st_set, st_item, len(mobs["subs"])), size=size)
+        return rec
+
+    if kind == "alias":
+        return run_alias(c, rec, size)
 
     if kind == "malformed":
         mesh = build(st)
@@ -969,6 +1016,101 @@ def run_case(c):
                    key=key_of("persist-json", exact, nd, c["mode"], acc, len(held), len(before)), size=size)
         return rec
     raise ValueError(kind)
+
+
+def shares(r1, r2):
+    return bool(r1 is r2 or np.shares_memory(r1.pmin, r2.pmin) or np.shares_memory(r1.pmax, r2.pmax)
+                or np.shares_memory(r1.pmin, r2.pmax) or np.shares_memory(r1.pmax, r2.pmin))
+
+
+def run_alias(c, rec, size):
+    st = c["st"]
+    nd = len(st["n"])
+    mode = c["mode"]
+    kw = dict(dims=list(st["dims"]), units=list(st["units"]), tolerance_factor=fl(st["tf"])) if c["carry"] else {}
+    oracle = []
+
+    def caller_region(x):
+        return df.Region(p1=nums(x[1], st), p2=nums(x[2], st), **kw)
+
+    def transform(mesh):
+        ref = None if c.get("ref") is None else nums(c["ref"], st)
+        if c["op"] == "translate":
+            return mesh.translate(nums(c["v"], st), inplace=c["inplace"])
+        return mesh.scale(nums(c["f"], st)[0], reference_point=ref, inplace=c["inplace"])
+
+    def check_mesh(mesh_obs, want, label):
+        out = [f"{x}" for x in invariant_violations(mesh_obs)]
+        got = name_map(mesh_obs["subs"])
+        if sorted(got) != sorted(w[0] for w in want):
+            out.append("subregion-names-changed")
+        for nm, wmin, wmax in want:
+            if nm in got and (got[nm][0] != wmin or got[nm][1] != wmax):
+                out.append("subregion-not-transformed-with-mesh" if label == "transformed"
+                           else "other-holder-subregions-changed")
+        return out
+
+    others = []          # (mesh, snapshot) pairs that must stay as they are
+    if mode == "same-twice":
+        mesh = build(st, with_subs=False)
+        r = caller_region(st["subs"][0])
+        callers = {"n1": r, "n2": r}
+        st_, _ = attempt(lambda: setattr(mesh, "subregions", callers))
+        if st_ != "ok":
+            oracle.append("valid-subregions-rejected")
+    elif mode == "dict-reuse":
+        mesh = build(st)
+        callers = {}
+        region2 = df.Region(p1=nums(st["p1"], st), p2=nums(st["p2"], st), dims=list(st["dims"]),
+                            units=list(st["units"]), tolerance_factor=fl(st["tf"]))
+        st_, mesh2 = attempt(lambda: df.Mesh(region=region2, n=list(st["n"]), subregions=mesh.subregions))
+        if st_ != "ok":
+            oracle.append("valid-subregions-rejected")
+        else:
+            others.append((mesh2, snap_mesh(mesh2)))
+            for nm in mesh.subregions:
+                if shares(mesh.subregions[nm], mesh2.subregions[nm]):
+                    oracle.append("stored-subregion-is-not-the-meshs-own")
+    else:
+        mesh = build(st, with_subs=False)
+        callers = {x[0]: caller_region(x) for x in st["subs"]}
+        st_, _ = attempt(lambda: setattr(mesh, "subregions", callers))
+        if st_ != "ok":
+            oracle.append("valid-subregions-rejected")
+    for nm, r in callers.items():
+        if nm in mesh.subregions and shares(mesh.subregions[nm], r):
+            oracle.append("stored-subregion-is-not-the-meshs-own")
+    names = list(mesh.subregions)
+    if any(shares(mesh.subregions[x], mesh.subregions[y]) for i, x in enumerate(names) for y in names[i + 1:]):
+        oracle.append("stored-subregion-is-not-the-meshs-own")
+    held = snap_subs(mesh)
+    if mode == "caller-mutates":
+        # the caller goes on using (and changing) their own Region objects
+        for r in callers.values():
+            if c["mutate"] == "translate":
+                attempt(lambda: r.translate(nums(c["mut_v"], st), inplace=True))
+            else:
+                attempt(lambda: r.scale(0.5, inplace=True))
+        if name_map(snap_subs(mesh)) != name_map(held):
+            oracle.append("caller-mutation-changed-held-subregions")
+        oracle += invariant_violations(snap_mesh(mesh))
+    st_t, res = attempt(lambda: transform(mesh))
+    want = transform_boxes(st, c, held)
+    if st_t != "ok":
+        oracle.append("valid-transformation-rejected")
+        obs = None
+    else:
+        obs = snap_mesh(res)
+        oracle += check_mesh(obs, want, "transformed")
+        if not c["inplace"]:
+            # the copying form leaves the original as it was
+            oracle += check_mesh(snap_mesh(mesh), [(x[0], Fs(x[1]), Fs(x[2])) for x in held], "original")
+    for m2, before in others:
+        oracle += check_mesh(snap_mesh(m2), [(x[0], Fs(x[1]), Fs(x[2])) for x in before["subs"]], "other")
+    rec["oracle"] = sorted(set(oracle))
+    rec.update(obs=dict(status=st_t, mesh=obs), key=key_of("alias", mode, c["carry"], c["inplace"], c["op"], nd,
+                                                           len(held), st_t), size=size)
+    return rec
 
 
 def transform_boxes(st, c, held):
